@@ -231,9 +231,9 @@ def run(R):
     items = []
     cnt = 4000 if R.thorough else 240
     for t in range(cnt):
-        m = R.rng.choice([2, 3, 3, 4, 5, 6, 8])
+        m = R.rng.choice([1, 2, 3, 3, 4, 5, 6, 8])
         n = R.rng.choice([1, 2, 3, 4, 5, 8, 12, 20, 40, 65, 97, 130])
-        if t % (60 if R.thorough else 11) == 10:          # many alternatives AND a large electorate (n * m * m beyond any fixed block size of a vectorised rewrite)
+        if t % (60 if R.thorough else 16) == 10:          # many alternatives AND a large electorate (n * m * m beyond any fixed block size of a vectorised rewrite)
             m = R.rng.choice([25, 30, 40])
             n = R.rng.choice([50, 75, 120])
         P = V.structured_profile(R.rng, n, m) if R.rng.random() < 0.4 else V.rand_profile(R.rng, n, m)
